@@ -13,624 +13,7 @@
    Where the model has no function of the same name the right-hand side is the model expression the run
    tables (Run/RunC0x.v) use for that operation: strict_div_euclid = U_div_euclid, lt = cmp_lt (ucmp a b),
    max = cmp_max (ucmp a b) a b, clamp = clamp ucmp, strict_add_signed = option_expect (U_checked_add_signed ..). *)
-From Bnum Require Import Base Prim.
-From Bnum.Model Require Import Digit Core Shift AddSub Mul Div Bits Pow.
-From Bnum.Generated Require Import Glue.
-
-Ltac glue_head t := lazymatch t with ?f _ => glue_head f | _ => t end.
-(* destruct the innermost stuck scrutinee (a `match` / `if` / `let '(_, _)` on something that is not itself a match) *)
-Ltac glue_cases :=
-  repeat match goal with
-         | |- context [match ?x with _ => _ end] =>
-             lazymatch x with
-             | context [match _ with _ => _ end] => fail
-             | _ => destruct x; cbv beta iota zeta delta [fst snd negb andb orb xorb Bool.eqb]
-             end
-         end.
-Ltac glue_tac :=
-  intros;
-  first [ reflexivity
-        | lazymatch goal with
-          | |- ?l = ?r => let hl := glue_head l in let hr := glue_head r in try unfold hl; try unfold hr
-          end;
-          unfold omap, obind, ocheck, tuple_to_option, option_expect, saturate_up, saturate_down, sat_by_sign,
-                 cmp_max, cmp_min, clamp, cmp_lt, cmp_le, cmp_gt, cmp_ge, mask_amount;
-          cbv beta iota zeta delta [fst snd negb andb orb xorb Bool.eqb]; glue_cases; reflexivity ].
-
-(* `exp & 1 != 0` (bint saturating_pow) is the model's Z.odd *)
-Lemma land1_odd e : negb (Z.land e 1 =? 0) = Z.odd e.
-Proof.
-  destruct e as [|p|p]; try reflexivity; destruct p as [q|q|]; try reflexivity; destruct q; reflexivity.
-Qed.
-
-(* ---------- add / sub / neg / abs families, comparisons, carrying_add / borrowing_sub ---------- *)
-Lemma glue_U_checked_add : forall w a b, Glue.U_checked_add w a b = U_checked_add w a b.
-Proof. glue_tac. Qed.
-Lemma glue_U_checked_add_signed : forall w a b, Glue.U_checked_add_signed w a b = U_checked_add_signed w a b.
-Proof. glue_tac. Qed.
-Lemma glue_U_checked_sub : forall w a b, Glue.U_checked_sub w a b = U_checked_sub w a b.
-Proof. glue_tac. Qed.
-Lemma glue_U_checked_neg : forall w a, Glue.U_checked_neg w a = U_checked_neg a.
-Proof. glue_tac. Qed.
-Lemma glue_U_wrapping_add : forall w a b, Glue.U_wrapping_add w a b = U_wrapping_add w a b.
-Proof. glue_tac. Qed.
-Lemma glue_U_wrapping_add_signed : forall w a b, Glue.U_wrapping_add_signed w a b = U_wrapping_add_signed w a b.
-Proof. glue_tac. Qed.
-Lemma glue_U_wrapping_sub : forall w a b, Glue.U_wrapping_sub w a b = U_wrapping_sub w a b.
-Proof. glue_tac. Qed.
-Lemma glue_U_wrapping_neg : forall w a, Glue.U_wrapping_neg w a = U_wrapping_neg w a.
-Proof. glue_tac. Qed.
-Lemma glue_U_saturate_up : forall w p, Glue.U_saturate_up w p = saturate_up w p.
-Proof. intros w [r f]. reflexivity. Qed.
-Lemma glue_U_saturate_down : forall w p, Glue.U_saturate_down w p = saturate_down p.
-Proof. intros w [r f]. reflexivity. Qed.
-Lemma glue_U_saturating_add : forall w a b, Glue.U_saturating_add w a b = U_saturating_add w a b.
-Proof. glue_tac. Qed.
-Lemma glue_U_saturating_add_signed : forall w a b, Glue.U_saturating_add_signed w a b = U_saturating_add_signed w a b.
-Proof. glue_tac. Qed.
-Lemma glue_U_saturating_sub : forall w a b, Glue.U_saturating_sub w a b = U_saturating_sub w a b.
-Proof. glue_tac. Qed.
-Lemma glue_U_strict_add : forall w a b, Glue.U_strict_add w a b = U_strict_add w a b.
-Proof. glue_tac. Qed.
-Lemma glue_U_strict_sub : forall w a b, Glue.U_strict_sub w a b = U_strict_sub w a b.
-Proof. glue_tac. Qed.
-Lemma glue_U_strict_neg : forall w a, Glue.U_strict_neg w a = U_strict_neg a.
-Proof. glue_tac. Qed.
-Lemma glue_I_strict_add : forall w a b, Glue.I_strict_add w a b = I_strict_add w a b.
-Proof. glue_tac. Qed.
-Lemma glue_I_strict_sub : forall w a b, Glue.I_strict_sub w a b = I_strict_sub w a b.
-Proof. glue_tac. Qed.
-Lemma glue_I_strict_neg : forall w a, Glue.I_strict_neg w a = I_strict_neg w a.
-Proof. glue_tac. Qed.
-Lemma glue_U_strict_add_signed : forall w a b, Glue.U_strict_add_signed w a b = option_expect (U_checked_add_signed w a b).
-Proof. glue_tac. Qed.
-Lemma glue_I_strict_abs : forall w a, Glue.I_strict_abs w a = I_strict_abs w a.
-Proof. glue_tac. Qed.
-Lemma glue_I_strict_add_unsigned : forall w a b, Glue.I_strict_add_unsigned w a b = option_expect (I_checked_add_unsigned w a b).
-Proof. glue_tac. Qed.
-Lemma glue_I_strict_sub_unsigned : forall w a b, Glue.I_strict_sub_unsigned w a b = option_expect (I_checked_sub_unsigned w a b).
-Proof. glue_tac. Qed.
-Lemma glue_U_add : forall dbg w a b, Glue.U_add dbg w a b = U_add dbg w a b.
-Proof. glue_tac. Qed.
-Lemma glue_U_sub : forall dbg w a b, Glue.U_sub dbg w a b = U_sub dbg w a b.
-Proof. glue_tac. Qed.
-Lemma glue_I_add : forall dbg w a b, Glue.I_add dbg w a b = I_add dbg w a b.
-Proof. glue_tac. Qed.
-Lemma glue_I_sub : forall dbg w a b, Glue.I_sub dbg w a b = I_sub dbg w a b.
-Proof. glue_tac. Qed.
-Lemma glue_U_max : forall w a b, Glue.U_max w a b = cmp_max (ucmp a b) a b.
-Proof. glue_tac. Qed.
-Lemma glue_U_min : forall w a b, Glue.U_min w a b = cmp_min (ucmp a b) a b.
-Proof. glue_tac. Qed.
-Lemma glue_U_clamp : forall w a lo hi, Glue.U_clamp w a lo hi = clamp ucmp a lo hi.
-Proof. glue_tac. Qed.
-Lemma glue_U_lt : forall w a b, Glue.U_lt w a b = cmp_lt (ucmp a b).
-Proof. glue_tac. Qed.
-Lemma glue_U_le : forall w a b, Glue.U_le w a b = cmp_le (ucmp a b).
-Proof. glue_tac. Qed.
-Lemma glue_U_gt : forall w a b, Glue.U_gt w a b = cmp_gt (ucmp a b).
-Proof. glue_tac. Qed.
-Lemma glue_U_ge : forall w a b, Glue.U_ge w a b = cmp_ge (ucmp a b).
-Proof. glue_tac. Qed.
-Lemma glue_I_max : forall w a b, Glue.I_max w a b = cmp_max (icmp w a b) a b.
-Proof. glue_tac. Qed.
-Lemma glue_I_min : forall w a b, Glue.I_min w a b = cmp_min (icmp w a b) a b.
-Proof. glue_tac. Qed.
-Lemma glue_I_clamp : forall w a lo hi, Glue.I_clamp w a lo hi = clamp (icmp w) a lo hi.
-Proof. glue_tac. Qed.
-Lemma glue_I_lt : forall w a b, Glue.I_lt w a b = cmp_lt (icmp w a b).
-Proof. glue_tac. Qed.
-Lemma glue_I_le : forall w a b, Glue.I_le w a b = cmp_le (icmp w a b).
-Proof. glue_tac. Qed.
-Lemma glue_I_gt : forall w a b, Glue.I_gt w a b = cmp_gt (icmp w a b).
-Proof. glue_tac. Qed.
-Lemma glue_I_ge : forall w a b, Glue.I_ge w a b = cmp_ge (icmp w a b).
-Proof. glue_tac. Qed.
-Lemma glue_U_carrying_add : forall w a b c, Glue.U_carrying_add w a b c = U_carrying_add w a b c.
-Proof. glue_tac. Qed.
-Lemma glue_U_borrowing_sub : forall w a b c, Glue.U_borrowing_sub w a b c = U_borrowing_sub w a b c.
-Proof. glue_tac. Qed.
-Lemma glue_I_carrying_add : forall w a b c, Glue.I_carrying_add w a b c = I_carrying_add w a b c.
-Proof. glue_tac. Qed.
-Lemma glue_I_borrowing_sub : forall w a b c, Glue.I_borrowing_sub w a b c = I_borrowing_sub w a b c.
-Proof. glue_tac. Qed.
-Lemma glue_I_checked_add : forall w a b, Glue.I_checked_add w a b = I_checked_add w a b.
-Proof. glue_tac. Qed.
-Lemma glue_I_checked_add_unsigned : forall w a b, Glue.I_checked_add_unsigned w a b = I_checked_add_unsigned w a b.
-Proof. glue_tac. Qed.
-Lemma glue_I_checked_sub : forall w a b, Glue.I_checked_sub w a b = I_checked_sub w a b.
-Proof. glue_tac. Qed.
-Lemma glue_I_checked_sub_unsigned : forall w a b, Glue.I_checked_sub_unsigned w a b = I_checked_sub_unsigned w a b.
-Proof. glue_tac. Qed.
-Lemma glue_I_checked_neg : forall w a, Glue.I_checked_neg w a = I_checked_neg w a.
-Proof. glue_tac. Qed.
-Lemma glue_I_checked_abs : forall w a, Glue.I_checked_abs w a = I_checked_abs w a.
-Proof. glue_tac. Qed.
-Lemma glue_I_wrapping_add : forall w a b, Glue.I_wrapping_add w a b = I_wrapping_add w a b.
-Proof. glue_tac. Qed.
-Lemma glue_I_wrapping_add_unsigned : forall w a b, Glue.I_wrapping_add_unsigned w a b = I_wrapping_add_unsigned w a b.
-Proof. glue_tac. Qed.
-Lemma glue_I_wrapping_sub : forall w a b, Glue.I_wrapping_sub w a b = I_wrapping_sub w a b.
-Proof. glue_tac. Qed.
-Lemma glue_I_wrapping_sub_unsigned : forall w a b, Glue.I_wrapping_sub_unsigned w a b = I_wrapping_sub_unsigned w a b.
-Proof. glue_tac. Qed.
-Lemma glue_I_wrapping_neg : forall w a, Glue.I_wrapping_neg w a = I_wrapping_neg w a.
-Proof. glue_tac. Qed.
-Lemma glue_I_wrapping_abs : forall w a, Glue.I_wrapping_abs w a = I_wrapping_abs w a.
-Proof. glue_tac. Qed.
-Lemma glue_I_saturating_add : forall w a b, Glue.I_saturating_add w a b = I_saturating_add w a b.
-Proof. glue_tac. Qed.
-Lemma glue_I_saturating_add_unsigned : forall w a b, Glue.I_saturating_add_unsigned w a b = I_saturating_add_unsigned w a b.
-Proof. glue_tac. Qed.
-Lemma glue_I_saturating_sub : forall w a b, Glue.I_saturating_sub w a b = I_saturating_sub w a b.
-Proof. glue_tac. Qed.
-Lemma glue_I_saturating_sub_unsigned : forall w a b, Glue.I_saturating_sub_unsigned w a b = I_saturating_sub_unsigned w a b.
-Proof. glue_tac. Qed.
-Lemma glue_I_saturating_neg : forall w a, Glue.I_saturating_neg w a = I_saturating_neg w a.
-Proof. glue_tac. Qed.
-Lemma glue_I_saturating_abs : forall w a, Glue.I_saturating_abs w a = I_saturating_abs w a.
-Proof. glue_tac. Qed.
-Lemma glue_U_overflowing_add_signed : forall w a b, Glue.U_overflowing_add_signed w a b = U_overflowing_add_signed w a b.
-Proof. glue_tac. Qed.
-Lemma glue_U_overflowing_neg : forall w a, Glue.U_overflowing_neg w a = U_overflowing_neg w a.
-Proof. glue_tac. Qed.
-Lemma glue_I_overflowing_add_unsigned : forall w a b, Glue.I_overflowing_add_unsigned w a b = I_overflowing_add_unsigned w a b.
-Proof. glue_tac. Qed.
-Lemma glue_I_overflowing_sub_unsigned : forall w a b, Glue.I_overflowing_sub_unsigned w a b = I_overflowing_sub_unsigned w a b.
-Proof. glue_tac. Qed.
-Lemma glue_I_overflowing_abs : forall w a, Glue.I_overflowing_abs w a = I_overflowing_abs w a.
-Proof. glue_tac. Qed.
-
-(* ---------- mul and pow projections ---------- *)
-Lemma glue_U_checked_mul : forall w a b, Glue.U_checked_mul w a b = U_checked_mul w a b.
-Proof. glue_tac. Qed.
-Lemma glue_U_wrapping_mul : forall w a b, Glue.U_wrapping_mul w a b = U_wrapping_mul w a b.
-Proof. glue_tac. Qed.
-Lemma glue_U_saturating_mul : forall w a b, Glue.U_saturating_mul w a b = U_saturating_mul w a b.
-Proof. glue_tac. Qed.
-Lemma glue_U_saturating_pow : forall w a e, Glue.U_saturating_pow w a e = U_saturating_pow w a e.
-Proof. glue_tac. Qed.
-Lemma glue_U_strict_mul : forall w a b, Glue.U_strict_mul w a b = U_strict_mul w a b.
-Proof. glue_tac. Qed.
-Lemma glue_U_strict_pow : forall w a e, Glue.U_strict_pow w a e = U_strict_pow w a e.
-Proof. glue_tac. Qed.
-Lemma glue_I_strict_mul : forall w a b, Glue.I_strict_mul w a b = I_strict_mul w a b.
-Proof. glue_tac. Qed.
-Lemma glue_I_strict_pow : forall w a e, Glue.I_strict_pow w a e = I_strict_pow w a e.
-Proof. glue_tac. Qed.
-Lemma glue_U_mul : forall dbg w a b, Glue.U_mul dbg w a b = U_mul dbg w a b.
-Proof. glue_tac. Qed.
-Lemma glue_I_mul : forall dbg w a b, Glue.I_mul dbg w a b = I_mul dbg w a b.
-Proof. glue_tac. Qed.
-Lemma glue_I_checked_mul : forall w a b, Glue.I_checked_mul w a b = I_checked_mul w a b.
-Proof. glue_tac. Qed.
-Lemma glue_I_wrapping_mul : forall w a b, Glue.I_wrapping_mul w a b = I_wrapping_mul w a b.
-Proof. glue_tac. Qed.
-Lemma glue_I_wrapping_pow : forall w a e, Glue.I_wrapping_pow w a e = I_wrapping_pow w a e.
-Proof. glue_tac. Qed.
-Lemma glue_I_saturating_mul : forall w a b, Glue.I_saturating_mul w a b = I_saturating_mul w a b.
-Proof. glue_tac. Qed.
-Lemma glue_I_saturating_pow : forall w a e, Glue.I_saturating_pow w a e = I_saturating_pow w a e.
-Proof. intros. unfold Glue.I_saturating_pow, I_saturating_pow. rewrite land1_odd. reflexivity. Qed.
-Lemma glue_U_overflowing_mul : forall w a b, Glue.U_overflowing_mul w a b = U_overflowing_mul w a b.
-Proof. glue_tac. Qed.
-Lemma glue_I_overflowing_mul : forall w a b, Glue.I_overflowing_mul w a b = I_overflowing_mul w a b.
-Proof. glue_tac. Qed.
-
-(* ---------- div / rem families ---------- *)
-Lemma glue_U_div_rem : forall w a b, Glue.U_div_rem w a b = U_div_rem w a b.
-Proof. glue_tac. Qed.
-Lemma glue_U_checked_div : forall w a b, Glue.U_checked_div w a b = U_checked_div w a b.
-Proof. glue_tac. Qed.
-Lemma glue_U_checked_div_euclid : forall w a b, Glue.U_checked_div_euclid w a b = U_checked_div_euclid w a b.
-Proof. glue_tac. Qed.
-Lemma glue_U_checked_rem : forall w a b, Glue.U_checked_rem w a b = U_checked_rem w a b.
-Proof. glue_tac. Qed.
-Lemma glue_U_checked_rem_euclid : forall w a b, Glue.U_checked_rem_euclid w a b = U_checked_rem_euclid w a b.
-Proof. glue_tac. Qed.
-Lemma glue_U_wrapping_div : forall w a b, Glue.U_wrapping_div w a b = U_wrapping_div w a b.
-Proof. glue_tac. Qed.
-Lemma glue_U_wrapping_div_euclid : forall w a b, Glue.U_wrapping_div_euclid w a b = U_wrapping_div_euclid w a b.
-Proof. glue_tac. Qed.
-Lemma glue_U_wrapping_rem : forall w a b, Glue.U_wrapping_rem w a b = U_wrapping_rem w a b.
-Proof. glue_tac. Qed.
-Lemma glue_U_wrapping_rem_euclid : forall w a b, Glue.U_wrapping_rem_euclid w a b = U_wrapping_rem_euclid w a b.
-Proof. glue_tac. Qed.
-Lemma glue_U_saturating_div : forall w a b, Glue.U_saturating_div w a b = U_saturating_div w a b.
-Proof. glue_tac. Qed.
-Lemma glue_U_strict_div : forall w a b, Glue.U_strict_div w a b = U_strict_div w a b.
-Proof. glue_tac. Qed.
-Lemma glue_U_strict_div_euclid : forall w a b, Glue.U_strict_div_euclid w a b = U_div_euclid w a b.
-Proof. glue_tac. Qed.
-Lemma glue_U_strict_rem : forall w a b, Glue.U_strict_rem w a b = U_strict_rem w a b.
-Proof. glue_tac. Qed.
-Lemma glue_U_strict_rem_euclid : forall w a b, Glue.U_strict_rem_euclid w a b = U_rem_euclid w a b.
-Proof. glue_tac. Qed.
-Lemma glue_I_strict_div : forall dbg w a b, Glue.I_strict_div dbg w a b = I_strict_div dbg w a b.
-Proof. glue_tac. Qed.
-Lemma glue_I_strict_div_euclid : forall dbg w a b, Glue.I_strict_div_euclid dbg w a b = I_div_euclid dbg w a b.
-Proof. glue_tac. Qed.
-Lemma glue_I_strict_rem : forall dbg w a b, Glue.I_strict_rem dbg w a b = I_strict_rem dbg w a b.
-Proof. glue_tac. Qed.
-Lemma glue_I_strict_rem_euclid : forall dbg w a b, Glue.I_strict_rem_euclid dbg w a b = I_rem_euclid dbg w a b.
-Proof. glue_tac. Qed.
-Lemma glue_I_checked_div : forall dbg w a b, Glue.I_checked_div dbg w a b = I_checked_div dbg w a b.
-Proof. glue_tac. Qed.
-Lemma glue_I_checked_div_euclid : forall dbg w a b, Glue.I_checked_div_euclid dbg w a b = I_checked_div_euclid dbg w a b.
-Proof. glue_tac. Qed.
-Lemma glue_I_checked_rem : forall dbg w a b, Glue.I_checked_rem dbg w a b = I_checked_rem dbg w a b.
-Proof. glue_tac. Qed.
-Lemma glue_I_checked_rem_euclid : forall dbg w a b, Glue.I_checked_rem_euclid dbg w a b = I_checked_rem_euclid dbg w a b.
-Proof. glue_tac. Qed.
-Lemma glue_I_wrapping_div : forall dbg w a b, Glue.I_wrapping_div dbg w a b = I_wrapping_div dbg w a b.
-Proof. glue_tac. Qed.
-Lemma glue_I_wrapping_div_euclid : forall dbg w a b, Glue.I_wrapping_div_euclid dbg w a b = I_wrapping_div_euclid dbg w a b.
-Proof. glue_tac. Qed.
-Lemma glue_I_wrapping_rem : forall dbg w a b, Glue.I_wrapping_rem dbg w a b = I_wrapping_rem dbg w a b.
-Proof. glue_tac. Qed.
-Lemma glue_I_wrapping_rem_euclid : forall dbg w a b, Glue.I_wrapping_rem_euclid dbg w a b = I_wrapping_rem_euclid dbg w a b.
-Proof. glue_tac. Qed.
-Lemma glue_I_saturating_div : forall dbg w a b, Glue.I_saturating_div dbg w a b = I_saturating_div dbg w a b.
-Proof. glue_tac. Qed.
-Lemma glue_U_overflowing_div : forall w a b, Glue.U_overflowing_div w a b = U_overflowing_div w a b.
-Proof. glue_tac. Qed.
-Lemma glue_U_overflowing_div_euclid : forall w a b, Glue.U_overflowing_div_euclid w a b = U_overflowing_div_euclid w a b.
-Proof. glue_tac. Qed.
-Lemma glue_U_overflowing_rem : forall w a b, Glue.U_overflowing_rem w a b = U_overflowing_rem w a b.
-Proof. glue_tac. Qed.
-Lemma glue_U_overflowing_rem_euclid : forall w a b, Glue.U_overflowing_rem_euclid w a b = U_overflowing_rem_euclid w a b.
-Proof. glue_tac. Qed.
-Lemma glue_I_overflowing_rem : forall dbg w a b, Glue.I_overflowing_rem dbg w a b = I_overflowing_rem dbg w a b.
-Proof. glue_tac. Qed.
-
-(* ---------- shifts (and wrapping_next_power_of_two) ---------- *)
-Lemma glue_U_checked_shl : forall w a r, Glue.U_checked_shl w a r = U_checked_shl w a r.
-Proof. glue_tac. Qed.
-Lemma glue_U_checked_shr : forall w a r, Glue.U_checked_shr w a r = U_checked_shr w a r.
-Proof. glue_tac. Qed.
-Lemma glue_U_wrapping_shl : forall w a r, Glue.U_wrapping_shl w a r = U_wrapping_shl w a r.
-Proof. glue_tac. Qed.
-Lemma glue_U_wrapping_shr : forall w a r, Glue.U_wrapping_shr w a r = U_wrapping_shr w a r.
-Proof. glue_tac. Qed.
-Lemma glue_U_wrapping_next_power_of_two : forall w a, Glue.U_wrapping_next_power_of_two w a = U_wrapping_next_power_of_two w a.
-Proof. glue_tac. Qed.
-Lemma glue_U_strict_shl : forall w a r, Glue.U_strict_shl w a r = U_strict_shl w a r.
-Proof. glue_tac. Qed.
-Lemma glue_U_strict_shr : forall w a r, Glue.U_strict_shr w a r = U_strict_shr w a r.
-Proof. glue_tac. Qed.
-Lemma glue_I_strict_shl : forall w a r, Glue.I_strict_shl w a r = I_strict_shl w a r.
-Proof. glue_tac. Qed.
-Lemma glue_I_strict_shr : forall w a r, Glue.I_strict_shr w a r = I_strict_shr w a r.
-Proof. glue_tac. Qed.
-Lemma glue_U_shl : forall dbg w a r, Glue.U_shl dbg w a r = U_shl dbg w a r.
-Proof. glue_tac. Qed.
-Lemma glue_U_shr : forall dbg w a r, Glue.U_shr dbg w a r = U_shr dbg w a r.
-Proof. glue_tac. Qed.
-Lemma glue_I_shl : forall dbg w a r, Glue.I_shl dbg w a r = I_shl dbg w a r.
-Proof. glue_tac. Qed.
-Lemma glue_I_shr : forall dbg w a r, Glue.I_shr dbg w a r = I_shr dbg w a r.
-Proof. glue_tac. Qed.
-Lemma glue_I_checked_shl : forall w a r, Glue.I_checked_shl w a r = I_checked_shl w a r.
-Proof. glue_tac. Qed.
-Lemma glue_I_checked_shr : forall w a r, Glue.I_checked_shr w a r = I_checked_shr w a r.
-Proof. glue_tac. Qed.
-Lemma glue_I_wrapping_shl : forall w a r, Glue.I_wrapping_shl w a r = I_wrapping_shl w a r.
-Proof. glue_tac. Qed.
-Lemma glue_I_wrapping_shr : forall w a r, Glue.I_wrapping_shr w a r = I_wrapping_shr w a r.
-Proof. glue_tac. Qed.
-Lemma glue_U_overflowing_shl : forall w a r, Glue.U_overflowing_shl w a r = U_overflowing_shl w a r.
-Proof. glue_tac. Qed.
-Lemma glue_U_overflowing_shr : forall w a r, Glue.U_overflowing_shr w a r = U_overflowing_shr w a r.
-Proof. glue_tac. Qed.
-Lemma glue_I_overflowing_shl : forall w a r, Glue.I_overflowing_shl w a r = I_overflowing_shl w a r.
-Proof. glue_tac. Qed.
-Lemma glue_I_overflowing_shr : forall w a r, Glue.I_overflowing_shr w a r = I_overflowing_shr w a r.
-Proof. glue_tac. Qed.
-Lemma glue_U_unchecked_shr_internal : forall w a r, Glue.U_unchecked_shr_internal w a r = shr_pad_internal w false a r.
-Proof. glue_tac. Qed.
-
-(* ---------- summaries ---------- *)
-Definition glue_addsub_statement : Prop :=
-  (forall w a b, Glue.U_checked_add w a b = U_checked_add w a b) /\
-  (forall w a b, Glue.U_checked_add_signed w a b = U_checked_add_signed w a b) /\
-  (forall w a b, Glue.U_checked_sub w a b = U_checked_sub w a b) /\
-  (forall w a, Glue.U_checked_neg w a = U_checked_neg a) /\
-  (forall w a b, Glue.U_wrapping_add w a b = U_wrapping_add w a b) /\
-  (forall w a b, Glue.U_wrapping_add_signed w a b = U_wrapping_add_signed w a b) /\
-  (forall w a b, Glue.U_wrapping_sub w a b = U_wrapping_sub w a b) /\
-  (forall w a, Glue.U_wrapping_neg w a = U_wrapping_neg w a) /\
-  (forall w p, Glue.U_saturate_up w p = saturate_up w p) /\
-  (forall w p, Glue.U_saturate_down w p = saturate_down p) /\
-  (forall w a b, Glue.U_saturating_add w a b = U_saturating_add w a b) /\
-  (forall w a b, Glue.U_saturating_add_signed w a b = U_saturating_add_signed w a b) /\
-  (forall w a b, Glue.U_saturating_sub w a b = U_saturating_sub w a b) /\
-  (forall w a b, Glue.U_strict_add w a b = U_strict_add w a b) /\
-  (forall w a b, Glue.U_strict_sub w a b = U_strict_sub w a b) /\
-  (forall w a, Glue.U_strict_neg w a = U_strict_neg a) /\
-  (forall w a b, Glue.I_strict_add w a b = I_strict_add w a b) /\
-  (forall w a b, Glue.I_strict_sub w a b = I_strict_sub w a b) /\
-  (forall w a, Glue.I_strict_neg w a = I_strict_neg w a) /\
-  (forall w a b, Glue.U_strict_add_signed w a b = option_expect (U_checked_add_signed w a b)) /\
-  (forall w a, Glue.I_strict_abs w a = I_strict_abs w a) /\
-  (forall w a b, Glue.I_strict_add_unsigned w a b = option_expect (I_checked_add_unsigned w a b)) /\
-  (forall w a b, Glue.I_strict_sub_unsigned w a b = option_expect (I_checked_sub_unsigned w a b)) /\
-  (forall dbg w a b, Glue.U_add dbg w a b = U_add dbg w a b) /\
-  (forall dbg w a b, Glue.U_sub dbg w a b = U_sub dbg w a b) /\
-  (forall dbg w a b, Glue.I_add dbg w a b = I_add dbg w a b) /\
-  (forall dbg w a b, Glue.I_sub dbg w a b = I_sub dbg w a b) /\
-  (forall w a b, Glue.U_max w a b = cmp_max (ucmp a b) a b) /\
-  (forall w a b, Glue.U_min w a b = cmp_min (ucmp a b) a b) /\
-  (forall w a lo hi, Glue.U_clamp w a lo hi = clamp ucmp a lo hi) /\
-  (forall w a b, Glue.U_lt w a b = cmp_lt (ucmp a b)) /\
-  (forall w a b, Glue.U_le w a b = cmp_le (ucmp a b)) /\
-  (forall w a b, Glue.U_gt w a b = cmp_gt (ucmp a b)) /\
-  (forall w a b, Glue.U_ge w a b = cmp_ge (ucmp a b)) /\
-  (forall w a b, Glue.I_max w a b = cmp_max (icmp w a b) a b) /\
-  (forall w a b, Glue.I_min w a b = cmp_min (icmp w a b) a b) /\
-  (forall w a lo hi, Glue.I_clamp w a lo hi = clamp (icmp w) a lo hi) /\
-  (forall w a b, Glue.I_lt w a b = cmp_lt (icmp w a b)) /\
-  (forall w a b, Glue.I_le w a b = cmp_le (icmp w a b)) /\
-  (forall w a b, Glue.I_gt w a b = cmp_gt (icmp w a b)) /\
-  (forall w a b, Glue.I_ge w a b = cmp_ge (icmp w a b)) /\
-  (forall w a b c, Glue.U_carrying_add w a b c = U_carrying_add w a b c) /\
-  (forall w a b c, Glue.U_borrowing_sub w a b c = U_borrowing_sub w a b c) /\
-  (forall w a b c, Glue.I_carrying_add w a b c = I_carrying_add w a b c) /\
-  (forall w a b c, Glue.I_borrowing_sub w a b c = I_borrowing_sub w a b c) /\
-  (forall w a b, Glue.I_checked_add w a b = I_checked_add w a b) /\
-  (forall w a b, Glue.I_checked_add_unsigned w a b = I_checked_add_unsigned w a b) /\
-  (forall w a b, Glue.I_checked_sub w a b = I_checked_sub w a b) /\
-  (forall w a b, Glue.I_checked_sub_unsigned w a b = I_checked_sub_unsigned w a b) /\
-  (forall w a, Glue.I_checked_neg w a = I_checked_neg w a) /\
-  (forall w a, Glue.I_checked_abs w a = I_checked_abs w a) /\
-  (forall w a b, Glue.I_wrapping_add w a b = I_wrapping_add w a b) /\
-  (forall w a b, Glue.I_wrapping_add_unsigned w a b = I_wrapping_add_unsigned w a b) /\
-  (forall w a b, Glue.I_wrapping_sub w a b = I_wrapping_sub w a b) /\
-  (forall w a b, Glue.I_wrapping_sub_unsigned w a b = I_wrapping_sub_unsigned w a b) /\
-  (forall w a, Glue.I_wrapping_neg w a = I_wrapping_neg w a) /\
-  (forall w a, Glue.I_wrapping_abs w a = I_wrapping_abs w a) /\
-  (forall w a b, Glue.I_saturating_add w a b = I_saturating_add w a b) /\
-  (forall w a b, Glue.I_saturating_add_unsigned w a b = I_saturating_add_unsigned w a b) /\
-  (forall w a b, Glue.I_saturating_sub w a b = I_saturating_sub w a b) /\
-  (forall w a b, Glue.I_saturating_sub_unsigned w a b = I_saturating_sub_unsigned w a b) /\
-  (forall w a, Glue.I_saturating_neg w a = I_saturating_neg w a) /\
-  (forall w a, Glue.I_saturating_abs w a = I_saturating_abs w a) /\
-  (forall w a b, Glue.U_overflowing_add_signed w a b = U_overflowing_add_signed w a b) /\
-  (forall w a, Glue.U_overflowing_neg w a = U_overflowing_neg w a) /\
-  (forall w a b, Glue.I_overflowing_add_unsigned w a b = I_overflowing_add_unsigned w a b) /\
-  (forall w a b, Glue.I_overflowing_sub_unsigned w a b = I_overflowing_sub_unsigned w a b) /\
-  (forall w a, Glue.I_overflowing_abs w a = I_overflowing_abs w a).
-Theorem glue_addsub_matches_model : glue_addsub_statement.
-Proof.
-  unfold glue_addsub_statement. repeat apply conj.
-  - exact glue_U_checked_add.
-  - exact glue_U_checked_add_signed.
-  - exact glue_U_checked_sub.
-  - exact glue_U_checked_neg.
-  - exact glue_U_wrapping_add.
-  - exact glue_U_wrapping_add_signed.
-  - exact glue_U_wrapping_sub.
-  - exact glue_U_wrapping_neg.
-  - exact glue_U_saturate_up.
-  - exact glue_U_saturate_down.
-  - exact glue_U_saturating_add.
-  - exact glue_U_saturating_add_signed.
-  - exact glue_U_saturating_sub.
-  - exact glue_U_strict_add.
-  - exact glue_U_strict_sub.
-  - exact glue_U_strict_neg.
-  - exact glue_I_strict_add.
-  - exact glue_I_strict_sub.
-  - exact glue_I_strict_neg.
-  - exact glue_U_strict_add_signed.
-  - exact glue_I_strict_abs.
-  - exact glue_I_strict_add_unsigned.
-  - exact glue_I_strict_sub_unsigned.
-  - exact glue_U_add.
-  - exact glue_U_sub.
-  - exact glue_I_add.
-  - exact glue_I_sub.
-  - exact glue_U_max.
-  - exact glue_U_min.
-  - exact glue_U_clamp.
-  - exact glue_U_lt.
-  - exact glue_U_le.
-  - exact glue_U_gt.
-  - exact glue_U_ge.
-  - exact glue_I_max.
-  - exact glue_I_min.
-  - exact glue_I_clamp.
-  - exact glue_I_lt.
-  - exact glue_I_le.
-  - exact glue_I_gt.
-  - exact glue_I_ge.
-  - exact glue_U_carrying_add.
-  - exact glue_U_borrowing_sub.
-  - exact glue_I_carrying_add.
-  - exact glue_I_borrowing_sub.
-  - exact glue_I_checked_add.
-  - exact glue_I_checked_add_unsigned.
-  - exact glue_I_checked_sub.
-  - exact glue_I_checked_sub_unsigned.
-  - exact glue_I_checked_neg.
-  - exact glue_I_checked_abs.
-  - exact glue_I_wrapping_add.
-  - exact glue_I_wrapping_add_unsigned.
-  - exact glue_I_wrapping_sub.
-  - exact glue_I_wrapping_sub_unsigned.
-  - exact glue_I_wrapping_neg.
-  - exact glue_I_wrapping_abs.
-  - exact glue_I_saturating_add.
-  - exact glue_I_saturating_add_unsigned.
-  - exact glue_I_saturating_sub.
-  - exact glue_I_saturating_sub_unsigned.
-  - exact glue_I_saturating_neg.
-  - exact glue_I_saturating_abs.
-  - exact glue_U_overflowing_add_signed.
-  - exact glue_U_overflowing_neg.
-  - exact glue_I_overflowing_add_unsigned.
-  - exact glue_I_overflowing_sub_unsigned.
-  - exact glue_I_overflowing_abs.
-Qed.
-
-Definition glue_mul_statement : Prop :=
-  (forall w a b, Glue.U_checked_mul w a b = U_checked_mul w a b) /\
-  (forall w a b, Glue.U_wrapping_mul w a b = U_wrapping_mul w a b) /\
-  (forall w a b, Glue.U_saturating_mul w a b = U_saturating_mul w a b) /\
-  (forall w a e, Glue.U_saturating_pow w a e = U_saturating_pow w a e) /\
-  (forall w a b, Glue.U_strict_mul w a b = U_strict_mul w a b) /\
-  (forall w a e, Glue.U_strict_pow w a e = U_strict_pow w a e) /\
-  (forall w a b, Glue.I_strict_mul w a b = I_strict_mul w a b) /\
-  (forall w a e, Glue.I_strict_pow w a e = I_strict_pow w a e) /\
-  (forall dbg w a b, Glue.U_mul dbg w a b = U_mul dbg w a b) /\
-  (forall dbg w a b, Glue.I_mul dbg w a b = I_mul dbg w a b) /\
-  (forall w a b, Glue.I_checked_mul w a b = I_checked_mul w a b) /\
-  (forall w a b, Glue.I_wrapping_mul w a b = I_wrapping_mul w a b) /\
-  (forall w a e, Glue.I_wrapping_pow w a e = I_wrapping_pow w a e) /\
-  (forall w a b, Glue.I_saturating_mul w a b = I_saturating_mul w a b) /\
-  (forall w a e, Glue.I_saturating_pow w a e = I_saturating_pow w a e) /\
-  (forall w a b, Glue.U_overflowing_mul w a b = U_overflowing_mul w a b) /\
-  (forall w a b, Glue.I_overflowing_mul w a b = I_overflowing_mul w a b).
-Theorem glue_mul_matches_model : glue_mul_statement.
-Proof.
-  unfold glue_mul_statement. repeat apply conj.
-  - exact glue_U_checked_mul.
-  - exact glue_U_wrapping_mul.
-  - exact glue_U_saturating_mul.
-  - exact glue_U_saturating_pow.
-  - exact glue_U_strict_mul.
-  - exact glue_U_strict_pow.
-  - exact glue_I_strict_mul.
-  - exact glue_I_strict_pow.
-  - exact glue_U_mul.
-  - exact glue_I_mul.
-  - exact glue_I_checked_mul.
-  - exact glue_I_wrapping_mul.
-  - exact glue_I_wrapping_pow.
-  - exact glue_I_saturating_mul.
-  - exact glue_I_saturating_pow.
-  - exact glue_U_overflowing_mul.
-  - exact glue_I_overflowing_mul.
-Qed.
-
-Definition glue_div_statement : Prop :=
-  (forall w a b, Glue.U_div_rem w a b = U_div_rem w a b) /\
-  (forall w a b, Glue.U_checked_div w a b = U_checked_div w a b) /\
-  (forall w a b, Glue.U_checked_div_euclid w a b = U_checked_div_euclid w a b) /\
-  (forall w a b, Glue.U_checked_rem w a b = U_checked_rem w a b) /\
-  (forall w a b, Glue.U_checked_rem_euclid w a b = U_checked_rem_euclid w a b) /\
-  (forall w a b, Glue.U_wrapping_div w a b = U_wrapping_div w a b) /\
-  (forall w a b, Glue.U_wrapping_div_euclid w a b = U_wrapping_div_euclid w a b) /\
-  (forall w a b, Glue.U_wrapping_rem w a b = U_wrapping_rem w a b) /\
-  (forall w a b, Glue.U_wrapping_rem_euclid w a b = U_wrapping_rem_euclid w a b) /\
-  (forall w a b, Glue.U_saturating_div w a b = U_saturating_div w a b) /\
-  (forall w a b, Glue.U_strict_div w a b = U_strict_div w a b) /\
-  (forall w a b, Glue.U_strict_div_euclid w a b = U_div_euclid w a b) /\
-  (forall w a b, Glue.U_strict_rem w a b = U_strict_rem w a b) /\
-  (forall w a b, Glue.U_strict_rem_euclid w a b = U_rem_euclid w a b) /\
-  (forall dbg w a b, Glue.I_strict_div dbg w a b = I_strict_div dbg w a b) /\
-  (forall dbg w a b, Glue.I_strict_div_euclid dbg w a b = I_div_euclid dbg w a b) /\
-  (forall dbg w a b, Glue.I_strict_rem dbg w a b = I_strict_rem dbg w a b) /\
-  (forall dbg w a b, Glue.I_strict_rem_euclid dbg w a b = I_rem_euclid dbg w a b) /\
-  (forall dbg w a b, Glue.I_checked_div dbg w a b = I_checked_div dbg w a b) /\
-  (forall dbg w a b, Glue.I_checked_div_euclid dbg w a b = I_checked_div_euclid dbg w a b) /\
-  (forall dbg w a b, Glue.I_checked_rem dbg w a b = I_checked_rem dbg w a b) /\
-  (forall dbg w a b, Glue.I_checked_rem_euclid dbg w a b = I_checked_rem_euclid dbg w a b) /\
-  (forall dbg w a b, Glue.I_wrapping_div dbg w a b = I_wrapping_div dbg w a b) /\
-  (forall dbg w a b, Glue.I_wrapping_div_euclid dbg w a b = I_wrapping_div_euclid dbg w a b) /\
-  (forall dbg w a b, Glue.I_wrapping_rem dbg w a b = I_wrapping_rem dbg w a b) /\
-  (forall dbg w a b, Glue.I_wrapping_rem_euclid dbg w a b = I_wrapping_rem_euclid dbg w a b) /\
-  (forall dbg w a b, Glue.I_saturating_div dbg w a b = I_saturating_div dbg w a b) /\
-  (forall w a b, Glue.U_overflowing_div w a b = U_overflowing_div w a b) /\
-  (forall w a b, Glue.U_overflowing_div_euclid w a b = U_overflowing_div_euclid w a b) /\
-  (forall w a b, Glue.U_overflowing_rem w a b = U_overflowing_rem w a b) /\
-  (forall w a b, Glue.U_overflowing_rem_euclid w a b = U_overflowing_rem_euclid w a b) /\
-  (forall dbg w a b, Glue.I_overflowing_rem dbg w a b = I_overflowing_rem dbg w a b).
-Theorem glue_div_matches_model : glue_div_statement.
-Proof.
-  unfold glue_div_statement. repeat apply conj.
-  - exact glue_U_div_rem.
-  - exact glue_U_checked_div.
-  - exact glue_U_checked_div_euclid.
-  - exact glue_U_checked_rem.
-  - exact glue_U_checked_rem_euclid.
-  - exact glue_U_wrapping_div.
-  - exact glue_U_wrapping_div_euclid.
-  - exact glue_U_wrapping_rem.
-  - exact glue_U_wrapping_rem_euclid.
-  - exact glue_U_saturating_div.
-  - exact glue_U_strict_div.
-  - exact glue_U_strict_div_euclid.
-  - exact glue_U_strict_rem.
-  - exact glue_U_strict_rem_euclid.
-  - exact glue_I_strict_div.
-  - exact glue_I_strict_div_euclid.
-  - exact glue_I_strict_rem.
-  - exact glue_I_strict_rem_euclid.
-  - exact glue_I_checked_div.
-  - exact glue_I_checked_div_euclid.
-  - exact glue_I_checked_rem.
-  - exact glue_I_checked_rem_euclid.
-  - exact glue_I_wrapping_div.
-  - exact glue_I_wrapping_div_euclid.
-  - exact glue_I_wrapping_rem.
-  - exact glue_I_wrapping_rem_euclid.
-  - exact glue_I_saturating_div.
-  - exact glue_U_overflowing_div.
-  - exact glue_U_overflowing_div_euclid.
-  - exact glue_U_overflowing_rem.
-  - exact glue_U_overflowing_rem_euclid.
-  - exact glue_I_overflowing_rem.
-Qed.
-
-Definition glue_shift_statement : Prop :=
-  (forall w a r, Glue.U_checked_shl w a r = U_checked_shl w a r) /\
-  (forall w a r, Glue.U_checked_shr w a r = U_checked_shr w a r) /\
-  (forall w a r, Glue.U_wrapping_shl w a r = U_wrapping_shl w a r) /\
-  (forall w a r, Glue.U_wrapping_shr w a r = U_wrapping_shr w a r) /\
-  (forall w a, Glue.U_wrapping_next_power_of_two w a = U_wrapping_next_power_of_two w a) /\
-  (forall w a r, Glue.U_strict_shl w a r = U_strict_shl w a r) /\
-  (forall w a r, Glue.U_strict_shr w a r = U_strict_shr w a r) /\
-  (forall w a r, Glue.I_strict_shl w a r = I_strict_shl w a r) /\
-  (forall w a r, Glue.I_strict_shr w a r = I_strict_shr w a r) /\
-  (forall dbg w a r, Glue.U_shl dbg w a r = U_shl dbg w a r) /\
-  (forall dbg w a r, Glue.U_shr dbg w a r = U_shr dbg w a r) /\
-  (forall dbg w a r, Glue.I_shl dbg w a r = I_shl dbg w a r) /\
-  (forall dbg w a r, Glue.I_shr dbg w a r = I_shr dbg w a r) /\
-  (forall w a r, Glue.I_checked_shl w a r = I_checked_shl w a r) /\
-  (forall w a r, Glue.I_checked_shr w a r = I_checked_shr w a r) /\
-  (forall w a r, Glue.I_wrapping_shl w a r = I_wrapping_shl w a r) /\
-  (forall w a r, Glue.I_wrapping_shr w a r = I_wrapping_shr w a r) /\
-  (forall w a r, Glue.U_overflowing_shl w a r = U_overflowing_shl w a r) /\
-  (forall w a r, Glue.U_overflowing_shr w a r = U_overflowing_shr w a r) /\
-  (forall w a r, Glue.I_overflowing_shl w a r = I_overflowing_shl w a r) /\
-  (forall w a r, Glue.I_overflowing_shr w a r = I_overflowing_shr w a r) /\
-  (forall w a r, Glue.U_unchecked_shr_internal w a r = shr_pad_internal w false a r).
-Theorem glue_shift_matches_model : glue_shift_statement.
-Proof.
-  unfold glue_shift_statement. repeat apply conj.
-  - exact glue_U_checked_shl.
-  - exact glue_U_checked_shr.
-  - exact glue_U_wrapping_shl.
-  - exact glue_U_wrapping_shr.
-  - exact glue_U_wrapping_next_power_of_two.
-  - exact glue_U_strict_shl.
-  - exact glue_U_strict_shr.
-  - exact glue_I_strict_shl.
-  - exact glue_I_strict_shr.
-  - exact glue_U_shl.
-  - exact glue_U_shr.
-  - exact glue_I_shl.
-  - exact glue_I_shr.
-  - exact glue_I_checked_shl.
-  - exact glue_I_checked_shr.
-  - exact glue_I_wrapping_shl.
-  - exact glue_I_wrapping_shr.
-  - exact glue_U_overflowing_shl.
-  - exact glue_U_overflowing_shr.
-  - exact glue_I_overflowing_shl.
-  - exact glue_I_overflowing_shr.
-  - exact glue_U_unchecked_shr_internal.
-Qed.
+From Bnum.Proofs Require Export GlueTieCommon GlueTieC01 GlueTieC02 GlueTieC03 GlueTieC05.
 
 Theorem glue_matches_model :
   glue_addsub_statement /\ glue_mul_statement /\ glue_div_statement /\ glue_shift_statement.
